@@ -18,6 +18,7 @@ var clientEntryPoints = []string{
 func init() {
 	register("C09", func(c *core.Ctx, tier string) {
 		c09Panics(c)
+		c09UncheckedAssertions(c)
 		c09ConnWritesLocked(c)
 		timerNilSafe(c, "C09.3a")
 		c09DecodedPointers(c)
@@ -664,4 +665,74 @@ func c09OnRequestImplementations(c *core.Ctx, R string) {
 		}
 	}
 	c.Check(R, bsVerify+"/plain-request-on-upgrade-only-session→BAD_REQUEST", v.Pos(), ok, "!upgrade ∧ session.Transport().HandlesUpgrades() is refused before HandleRequest can delegate it")
+}
+
+// c09UncheckedAssertions — C09.1b: implicit panics. A single-value type
+// assertion x.(T) panics when the dynamic type differs; the dynamic type of a
+// decoded packet's data, of a frame reader or of an option value follows the
+// client's bytes or the application's configuration.
+func c09UncheckedAssertions(c *core.Ctx) {
+	const R = "C09.1b"
+	c.Rule(R, "implicit panics: every single-value type assertion x.(T) (no comma-ok, not a type switch) in engine, transports, webtransport, types, utils is either an element of a listener's variadic parameter (args[i].(T): decided by the event-signature rule C09.4) or one of the frozen sites whose operand's dynamic type is fixed by the repository itself (polling.write: p.Proto().(Polling), set by MakePolling/MakeJsonp; abortRequest/abortUpgrade: m.(string), decided by C09.4); any other — e.g. on packet.Data, whose dynamic type (*StringBuffer / *BytesBuffer) is chosen by the frame kind the client sends — is a client-triggerable panic on a reader goroutine that nothing recovers")
+	allowed := map[string]bool{
+		"transports.(*polling).write|Polling": true,
+		"engine.abortRequest|string":          true,
+		"engine.abortUpgrade|string":          true,
+	}
+	n, listenerArgs := 0, 0
+	for _, u := range c.P.Units {
+		if u.Pkg == nil || u.Pkg.Types == nil {
+			continue
+		}
+		switch u.Pkg.Types.Name() {
+		case "engine", "transports", "webtransport", "types", "utils", "events":
+		default:
+			continue
+		}
+		info := u.Info()
+		checked := map[*ast.TypeAssertExpr]bool{}
+		var walk func(nd ast.Node)
+		walk = func(nd ast.Node) {
+			ast.Inspect(nd, func(x ast.Node) bool {
+				switch s := x.(type) {
+				case *ast.FuncLit:
+					return false
+				case *ast.AssignStmt:
+					if len(s.Lhs) == 2 && len(s.Rhs) == 1 {
+						if ta, ok := ast.Unparen(s.Rhs[0]).(*ast.TypeAssertExpr); ok {
+							checked[ta] = true
+						}
+					}
+				case *ast.ValueSpec:
+					if len(s.Names) == 2 && len(s.Values) == 1 {
+						if ta, ok := ast.Unparen(s.Values[0]).(*ast.TypeAssertExpr); ok {
+							checked[ta] = true
+						}
+					}
+				case *ast.TypeAssertExpr:
+					if s.Type == nil || checked[s] {
+						return true
+					}
+					n++
+					// element of the unit's variadic ...any parameter
+					if ix, ok := ast.Unparen(s.X).(*ast.IndexExpr); ok {
+						if v, isP := u.IsParam(ix.X); isP {
+							if sl, ok := v.Type().(*types.Slice); ok {
+								if it, ok := sl.Elem().Underlying().(*types.Interface); ok && it.Empty() {
+									listenerArgs++
+									return true
+								}
+							}
+						}
+					}
+					k := u.Key + "|" + core.TypeName(info.TypeOf(s.Type))
+					c.Check(R, keyf("%s/%s.(%s)", u.Key, selPath(s.X), core.ExprString(s.Type)), s.Pos(), allowed[k], "unchecked type assertion on a value whose dynamic type is not fixed by the repository: use the comma-ok form or read it through its interface")
+				}
+				return true
+			})
+		}
+		walk(u.Body)
+	}
+	c.Need(R, "unchecked type assertions examined", n, 8)
+	c.Need(R, "of which listener arguments (C09.4)", listenerArgs, 5)
 }
